@@ -15,6 +15,14 @@ pub struct Seed {
     pub family: &'static str,
 }
 
+pub type Env = std::sync::Arc<dyn Fn(&mut Interp) + Send + Sync>;
+
+pub fn env_none() -> Env {
+    std::sync::Arc::new(|_: &mut Interp| {})
+}
+
+pub type Classifier = std::sync::Arc<dyn Fn(&FailCtx) -> Option<String> + Send + Sync>;
+
 pub struct FailCtx<'a> {
     pub seed: &'a str,
     pub rule_names: Vec<String>,
@@ -25,7 +33,7 @@ pub struct FailCtx<'a> {
     pub expected: &'a Observation,
     pub actual: &'a Observation,
     pub gen: Gen,
-    pub env_out: fn(&mut Interp),
+    pub env_out: &'a Env,
     pub fuel: i64,
 }
 
@@ -35,12 +43,14 @@ pub struct Spec {
     pub rule_jsons: Vec<String>,
     pub max_depth: usize,
     pub max_states: usize,
-    pub env_seed: fn(&mut Interp),
-    pub env_out: fn(&mut Interp),
-    pub classify: fn(&FailCtx) -> Option<String>,
+    pub env_seed: Env,
+    pub env_out: Env,
+    pub classify: Classifier,
     /// additionally run the canonical configuration end to end through darklua_core::process and compare bytes
     pub bind_default_config: Option<String>,
     pub extra_gens: Vec<Gen>,
+    /// false when the untransformed seed is not expected to satisfy the oracle (modified-environment oracles)
+    pub judge_root: bool,
 }
 
 #[derive(Default)]
@@ -61,7 +71,6 @@ struct SeedResult {
     sample: Option<serde_json::Value>,
 }
 
-pub fn no_env(_: &mut Interp) {}
 
 fn first_bad<'a>(
     graph: &pipeline::Graph,
@@ -87,7 +96,7 @@ fn first_bad<'a>(
 
 fn run_seed(spec: &Spec, seed: &Seed, gens_tokens: &[Gen], gens_plain: &[Gen]) -> SeedResult {
     let mut r = SeedResult::default();
-    let obs0 = luaref::observe(&seed.code, Mode::Luau, luaref::DEFAULT_FUEL, &spec.env_seed);
+    let obs0 = luaref::observe(&seed.code, Mode::Luau, luaref::DEFAULT_FUEL, &*spec.env_seed);
     match &obs0.outcome {
         Outcome::Returned(_) => {}
         Outcome::Error(_) => {
@@ -149,8 +158,13 @@ fn run_seed(spec: &Spec, seed: &Seed, gens_tokens: &[Gen], gens_plain: &[Gen]) -
         let gens = if tokens { gens_tokens } else { gens_plain };
         // judge every state
         let mut state_bad: Vec<Option<(Gen, String, Observation)>> = Vec::with_capacity(graph.nodes.len());
-        for node in &graph.nodes {
+        for (node_idx, node) in graph.nodes.iter().enumerate() {
             let mut bad = None;
+            // the seed itself is an *output* when some rule application maps a state back to it (a no-op rule)
+            if node_idx == 0 && !spec.judge_root && !graph.edges.iter().any(|e| e.2 == 0) {
+                state_bad.push(None);
+                continue;
+            }
             for gen in gens {
                 r.evaluations += 1;
                 let text = match dl::generate(&node.block, &seed.code, *gen) {
@@ -162,7 +176,7 @@ fn run_seed(spec: &Spec, seed: &Seed, gens_tokens: &[Gen], gens_plain: &[Gen]) -
                 };
                 let obs = cache
                     .entry(text.clone())
-                    .or_insert_with(|| luaref::observe(&text, Mode::Luau, fuel, &spec.env_out));
+                    .or_insert_with(|| luaref::observe(&text, Mode::Luau, fuel, &*spec.env_out));
                 outcome_set.insert(crate::common::hash128(&obs.render()));
                 if matches!(obs.outcome, Outcome::Poison(_)) {
                     // the output reached behaviour the reference does not define although the seed did not:
@@ -206,7 +220,7 @@ fn run_seed(spec: &Spec, seed: &Seed, gens_tokens: &[Gen], gens_plain: &[Gen]) -
                     expected: &obs0,
                     actual,
                     gen: *gen,
-                    env_out: spec.env_out,
+                    env_out: &spec.env_out,
                     fuel,
                 };
                 let finding = (spec.classify)(&ctx);
@@ -334,22 +348,29 @@ pub fn run(spec: Spec, tier: Tier, mut report: Report) -> Report {
             }
         }
     }
-    report.set("seeds", spec.seeds.len() as u64);
-    report.set("graphs", graphs);
-    report.set("closed_graphs", closed);
+    report.add("seeds", spec.seeds.len() as u64);
+    report.add("graphs", graphs);
+    report.add("closed_graphs", closed);
     report.set("max_depth_reached", max_depth as u64);
     report.set("depth_bound", spec.max_depth as u64);
     report.set("state_cap_per_graph", spec.max_states as u64);
-    report.set("distinct_outcomes", distinct_outcomes);
-    report.set("outputs_reaching_unspecified_behaviour_not_judged", unspecified_outputs);
-    report.set(
-        "families",
-        json!(families.iter().map(|(k, (a, b))| (k.to_string(), json!({"seeds": a, "judged": b}))).collect::<serde_json::Map<_, _>>()),
-    );
+    report.add("distinct_outcomes", distinct_outcomes);
+    report.add("outputs_reaching_unspecified_behaviour_not_judged", unspecified_outputs);
+    let mut fam = report.extra.get("families").and_then(|v| v.as_object().cloned()).unwrap_or_default();
+    for (k, (a, b)) in families.iter() {
+        let prev = fam.get(*k).cloned().unwrap_or(json!({"seeds": 0, "judged": 0}));
+        fam.insert(
+            k.to_string(),
+            json!({"seeds": prev["seeds"].as_u64().unwrap_or(0) + a, "judged": prev["judged"].as_u64().unwrap_or(0) + b}),
+        );
+    }
+    report.set("families", fam);
     report.set("rules", json!(spec.rule_jsons));
     report.set("generators", json!(gens_tokens.iter().chain(gens_plain.iter()).map(|g| g.name()).collect::<Vec<_>>()));
-    report.exhaustive = closed == graphs;
-    report.set("cap_hit", closed != graphs);
+    report.exhaustive = report.exhaustive && closed == graphs;
+    if closed != graphs {
+        report.set("cap_hit", true);
+    }
     report
 }
 
@@ -366,7 +387,7 @@ fn parse_gen(name: &str) -> Gen {
 }
 
 /// re-executes one recorded pipeline case without the explorer, twice; prints both observations
-pub fn replay_pipeline(replay: &serde_json::Value, env_seed: fn(&mut Interp), env_out: fn(&mut Interp)) -> i32 {
+pub fn replay_pipeline(replay: &serde_json::Value, env_seed: Env, env_out: Env) -> i32 {
     let seed = replay["seed"].as_str().unwrap_or("");
     let tokens = replay["tokens"].as_bool().unwrap_or(false);
     let rules_json: Vec<String> = replay["rules"]
@@ -379,9 +400,9 @@ pub fn replay_pipeline(replay: &serde_json::Value, env_seed: fn(&mut Interp), en
         let rules: Vec<_> = rules_json.iter().map(|j| dl::make_rule(j)).collect();
         let path: Vec<usize> = (0..rules.len()).collect();
         let out = pipeline::replay_path(seed, tokens, &rules, &path).and_then(|b| dl::generate(&b, seed, gen));
-        let expected = luaref::observe(seed, Mode::Luau, luaref::DEFAULT_FUEL, &env_seed);
+        let expected = luaref::observe(seed, Mode::Luau, luaref::DEFAULT_FUEL, &*env_seed);
         let actual = match &out {
-            Ok(text) => luaref::observe(text, Mode::Luau, expected.fuel_used * 50 + 2000, &env_out).render(),
+            Ok(text) => luaref::observe(text, Mode::Luau, expected.fuel_used * 50 + 2000, &*env_out).render(),
             Err(e) => e.clone(),
         };
         runs.push((out.unwrap_or_default(), expected.render(), actual));
